@@ -279,6 +279,33 @@ fn run(src: &str, max_steps: usize) -> (Result<Canon, String>, Vec<(String, u64)
   (r, seq)
 }
 
+/// one session: the machine is defined once and then invoked for every input, in ascending and (in a second session) descending order;
+/// every invocation must give what the same invocation gives in a fresh interpreter (results and failures alike)
+fn repeated_invocations(srcs: &[String], locus: &str, out: &mut WorkerOut) {
+  if srcs.len() < 2 { return; }
+  let split = |s: &str| -> Option<(String, String)> { s.rfind("\n\nr := ").map(|p| (s[..p].to_string(), s[p + 7..].to_string())) };
+  let (def, _) = match split(&srcs[0]) { Some(x) => x, None => return };
+  let fresh: Vec<Result<Canon, String>> = srcs.iter().map(|src| run(src, 60).0).collect();
+  if fresh.iter().any(|r| matches!(r, Err(e) if e.starts_with("PANIC") || e == "ParseError")) { return; }
+  for descending in [false, true] {
+    let tree = match parse_cached(&def) { Some(t) => t, None => return };
+    let mut i = Interpreter::new(0);
+    i.max_steps = 60;
+    if !matches!(catch_unwind(AssertUnwindSafe(|| i.interpret(&tree))), Ok(Ok(_))) { out.count("definition_alone_rejected"); return; }
+    let order: Vec<usize> = if descending { (0..srcs.len()).rev().collect() } else { (0..srcs.len()).collect() };
+    for k in order {
+      let (_, inv) = match split(&srcs[k]) { Some(x) => x, None => continue };
+      let stmt = format!("r{} := {}", (b'a' + k as u8) as char, inv);
+      let t = match parse_cached(&stmt) { Some(t) => t, None => continue };
+      out.evaluations += 1; out.nontrivial += 1;
+      let r = match catch_unwind(AssertUnwindSafe(|| i.interpret(&t))) { Ok(Ok(v)) => Ok(canon(&v)), Ok(Err(e)) => Err(e.kind_name()), Err(p) => Err(format!("PANIC:{}", panic_msg(p))) };
+      let same = match (&r, &fresh[k]) { (Ok(a), Ok(b)) => a == b, (Err(a), Err(_)) => !a.starts_with("PANIC"), _ => false };
+      if same { out.count("repeated_invocation_agrees"); }
+      else { out.fail(format!("C17|invocation-history-dependent|{}", locus), format!("{} ;; invocations {} ;; {}", def.replace('\n', " ⏎ "), if descending { "in descending input order" } else { "in ascending input order" }, stmt), format!("in a fresh interpreter {:?}, after the earlier invocations {:?}", fresh[k].as_ref().map(|c| c.short()), r.as_ref().map(|c| c.short()))); }
+    }
+  }
+}
+
 impl UnitRunner for C17 {
   fn unit(&mut self, _payload: &str, unit: u64, out: &mut WorkerOut) {
     if unit as usize >= self.ms.len() + self.vms.len() {
@@ -303,6 +330,7 @@ impl UnitRunner for C17 {
           TSim::Arithmetic => { out.count("payload_underflow(not judged)"); }
         }
       } }
+      { let top = self.tier.pick(3u64, 4u64); let mut srcs = vec![]; for a in 0..=top { for b in [0, top] { srcs.push(trender(m, &format!("{}u64", a), &format!("{}u64", b))); } } repeated_invocations(&srcs, &m.shape, out); }
       // wrong number and wrong kind of arguments must be rejected
       for (args, what) in [(("3u64".to_string(), String::new()), "one-argument"), (("1.5".to_string(), "2.5".to_string()), "f64-arguments")] {
         out.evaluations += 1; out.nontrivial += 1;
@@ -314,6 +342,7 @@ impl UnitRunner for C17 {
     }
     if unit as usize >= self.ms.len() {
       let m = &self.vms[unit as usize - self.ms.len()];
+      { let srcs: Vec<String> = (0..=self.tier.pick(3u64, 4u64)).map(|k| vrender(m, k)).collect(); repeated_invocations(&srcs, &m.shape, out); }
       for k in 0..=self.tier.pick(3u64, 4u64) {
         out.evaluations += 1; out.nontrivial += 1;
         let src = vrender(m, k);
@@ -330,6 +359,7 @@ impl UnitRunner for C17 {
     }
     let m = &self.ms[unit as usize];
     let locus = m.shape.clone();
+    if m.ill == Ill::None { let srcs: Vec<String> = (0..=self.tier.pick(5u64, 7u64)).map(|i| render(m, &format!("{}u64", i))).collect(); repeated_invocations(&srcs, &locus, out); }
     for input in 0..=self.tier.pick(5u64, 7u64) {
       let arg = if m.ill == Ill::WrongArgKind { format!("{}.5", input) } else { format!("{}u64", input) };
       let src = render(m, &arg);
